@@ -62,8 +62,12 @@ VARIABLES pc,     \* "pick" | "picked" | "written" | "rewritten" | "read" | "emi
           src,    \* the object handed to the producer
           doc,    \* the document of the first call
           doc2,   \* the document of the second call
-          back    \* what the reader makes of doc: [ok, obj]
-vars == <<pc, prod, src, doc, doc2, back>>
+          back,   \* what the reader makes of doc: [ok, obj]
+          store,  \* the file store: path -> the document last written there (with the object it was written from)
+          seen,   \* the last read of a path: [path, want (the design last written to it), got (what the reader built)]
+          hist    \* the write / change / read operations so far (recorded for behaviour generation only)
+fvars == <<store, seen, hist>>
+vars == <<pc, prod, src, doc, doc2, back, store, seen, hist>>
 
 Thorough == UNIVERSE = "thorough"
 K == 1000                      \* observed numbers are in 1/K lattice units
@@ -383,11 +387,14 @@ Sources(p) == CASE p = "die" -> Dies
 (* STATE MACHINE                                                           *)
 (***************************************************************************)
 Nothing == <<>>
-Init == pc = "pick" /\ prod = "" /\ src = Nothing /\ doc = Nothing /\ doc2 = Nothing /\ back = Nothing
+Paths == IF Thorough THEN {"P", "Q"} ELSE {"P"}
+NoFiles == [f \in Paths |-> Nothing]
+Init == /\ pc = "pick" /\ prod = "" /\ src = Nothing /\ doc = Nothing /\ doc2 = Nothing /\ back = Nothing
+        /\ store = NoFiles /\ seen = Nothing /\ hist = <<>>
 
 Pick == /\ pc = "pick"
         /\ \E p \in Producers : \E o \in Sources(p) : prod' = p /\ src' = o
-        /\ pc' = "picked" /\ UNCHANGED <<doc, doc2, back>>
+        /\ pc' = "picked" /\ UNCHANGED <<doc, doc2, back, fvars>>
 
 \* the document each producer writes for the object o
 Document(p, o) == CASE p = "die" -> WriteDie(o)
@@ -413,7 +420,7 @@ SameDesign(p, a, b) == IF p \in {"die", "floorset_dief"} THEN SameDie(a, b) ELSE
 \* one action per producer: the first call.  A producer only reads its object: src is UNCHANGED.
 Produce(p) == /\ pc = "picked" /\ prod = p /\ ~EMIT
               /\ doc' = Document(p, src)
-              /\ pc' = "written" /\ UNCHANGED <<prod, src, doc2, back>>
+              /\ pc' = "written" /\ UNCHANGED <<prod, src, doc2, back, fvars>>
 WriteDieA == Produce("die")
 WriteAllocA == Produce("alloc")
 Gen == Produce("netgen")
@@ -424,26 +431,83 @@ EmitLegalNetlist == Produce("legal")
 \* the second call on the same object
 ProduceAgain == /\ pc = "written"
                 /\ doc2' = Document(prod, src)
-                /\ pc' = "rewritten" /\ UNCHANGED <<prod, src, doc, back>>
+                /\ pc' = "rewritten" /\ UNCHANGED <<prod, src, doc, back, fvars>>
 \* the document goes to its reader
 Read == /\ pc = "rewritten"
         /\ back' = Reader(prod, doc)
-        /\ pc' = "read" /\ UNCHANGED <<prod, src, doc, doc2>>
+        /\ pc' = "read" /\ UNCHANGED <<prod, src, doc, doc2, fvars>>
 
 Emit == /\ EMIT /\ pc = "picked"
         /\ \/ prod \notin {"alloc", "die"} /\ PrintT(ToJson([prod |-> prod, src |-> src, op |-> "none"]))
            \/ prod = "alloc" /\ \A op \in AllocOps : PrintT(ToJson([prod |-> prod, src |-> src, op |-> op]))
            \/ prod = "die" /\ \A op \in {"none", "split"} : PrintT(ToJson([prod |-> prod, src |-> src, op |-> op]))
-        /\ pc' = "emitted" /\ UNCHANGED <<prod, src, doc, doc2, back>>
+        /\ pc' = "emitted" /\ UNCHANGED <<prod, src, doc, doc2, back, fvars>>
 
-Next == Pick \/ WriteDieA \/ WriteAllocA \/ Gen \/ ConvertFloorSet \/ EmitRectNetlist \/ EmitRectSolution \/ EmitLegalNetlist
+(***************************************************************************)
+(* THE FILE STORE: documents travel between the stages as files, and a     *)
+(* path is written again whenever the object has changed (the allocation   *)
+(* after refine, the die after split, a netlist after a change).  A read   *)
+(* of a path must describe the object LAST written to it ("any number of   *)
+(* repeated writes").  StartStore picks a producer that writes to a path   *)
+(* and one of a few small objects; WriteTo(f) produces the document of the *)
+(* current object into f, Change makes the next object current, ReadFrom(f)*)
+(* gives f to the reader.  TLC explores every interleaving over 1-2 paths. *)
+(***************************************************************************)
+StoreProducers == {"die", "alloc", "netgen", "floorset_fpef", "rect_netlist", "rect_solution"}
+Cell1(m) == << <<0, 0, 4, 2, Ground, 0, m>> >>
+SmallNet(S, ns) == [mods |-> ModSeq(S), nets |-> ns]
+StoreObjs(p) ==
+  CASE p = "die" -> << [w |-> DieW, h |-> DieH, regs |-> <<>>], [w |-> DieW, h |-> DieH, regs |-> << <<0, 0, 1, 1, Blockage>> >>],
+                       [w |-> DieW, h |-> DieH, regs |-> << <<1, 0, 3, 2, "dsp">> >>] >>
+    [] p = "alloc" -> << Cell1(<< <<"A", 2>> >>), Cell1(<< <<"A", 1>>, <<"B", 2>> >>), << <<0, 0, 2, 2, "dsp", 1, << <<"B", 4>> >> >>, <<2, 0, 4, 2, Ground, 1, <<>> >> >> >>
+    [] p = "netgen" -> << <<"chain", <<2>>>>, <<"ring", <<3>>>>, <<"star", <<4>>>> >>
+    [] p = "floorset_fpef" -> << [blocks |-> <<Block(1, 1, "soft")>>, pins |-> << <<12, 6>> >>, b2b |-> <<>>, p2b |-> << <<0, 0, One>> >>],
+                                 [blocks |-> <<Block(1, 2, "hard")>>, pins |-> << <<12, 6>> >>, b2b |-> <<>>, p2b |-> << <<0, 0, W52>> >>],
+                                 [blocks |-> <<Block(1, 1, "soft"), Block(2, 3, "fixed")>>, pins |-> << <<0, 6>>, <<12, 2>> >>,
+                                  b2b |-> << <<0, 1, W52>> >>, p2b |-> << <<1, 1, One>> >>] >>
+    [] p = "rect_netlist" -> << Cell1(<< <<"A", 2>> >>), Cell1(<< <<"A", 1>>, <<"B", 2>> >>), Cell1(<< <<"B", 4>> >>) >>
+    [] p = "rect_solution" -> << [net |-> SmallNet({1}, <<>>), result |-> SolvedA],
+                                 [net |-> SmallNet({1, 4}, << Net(<<"A", "H">>, W52) >>), result |-> SolvedA],
+                                 [net |-> SmallNet({2, 6}, << Net(<<"B", "F">>, One) >>), result |-> <<>>] >>
+MaxOps == IF Thorough THEN 6 ELSE 5
+Record(op) == hist' = IF EMIT THEN Append(hist, op) ELSE hist
+StartStore == /\ pc = "pick"
+              /\ \E p \in StoreProducers : prod' = p /\ src' = StoreObjs(p)[1]
+              /\ pc' = "store" /\ UNCHANGED <<doc, doc2, back, fvars>>
+WriteTo(f) == /\ pc = "store"
+              /\ store' = [store EXCEPT ![f] = [doc |-> Document(prod, src), obj |-> src]]
+              /\ UNCHANGED <<pc, prod, src, doc, doc2, back, seen>>
+\* the object has changed: another object is current (ChangeTo) -- in the model, the next one of the list
+ChangeTo(o) == /\ pc = "store" /\ src' = o
+               /\ UNCHANGED <<pc, prod, doc, doc2, back, store, seen>>
+NextObj == LET os == StoreObjs(prod)  i == CHOOSE k \in DOMAIN os : os[k] = src IN os[(i % Len(os)) + 1]
+ReadFrom(f) == /\ pc = "store" /\ store[f] # Nothing
+               /\ seen' = [path |-> f, want |-> Design(prod, store[f].obj), got |-> Reader(prod, store[f].doc)]
+               /\ UNCHANGED <<pc, prod, src, doc, doc2, back, store>>
+StoreStep == /\ pc = "store" /\ (EMIT => Len(hist) < MaxOps)
+             /\ \/ \E f \in Paths : WriteTo(f) /\ Record([op |-> "write", path |-> f])
+                \/ (IF hist = <<>> THEN TRUE ELSE hist[Len(hist)].op # "change") /\ ChangeTo(NextObj) /\ Record([op |-> "change", path |-> ""])
+                \/ \E f \in Paths : ReadFrom(f) /\ Record([op |-> "read", path |-> f])
+\* behaviour generation: the histories of MaxOps operations in which a path is read, written again after a change
+\* of the object, and read again at the end
+ReadRewrittenRead(f) == \E i \in DOMAIN hist : \E c \in DOMAIN hist : \E j \in DOMAIN hist :
+                           /\ i < c /\ c < j /\ j < MaxOps
+                           /\ hist[i].op = "read" /\ hist[i].path = f /\ hist[c].op = "change" /\ hist[j].op = "write" /\ hist[j].path = f
+EmitStore == /\ EMIT /\ pc = "store" /\ Len(hist) = MaxOps /\ hist[1].op = "write"
+             /\ hist[MaxOps].op = "read" /\ ReadRewrittenRead(hist[MaxOps].path)
+             /\ PrintT(ToJson([prod |-> "store", producer |-> prod, objs |-> StoreObjs(prod), ops |-> hist]))
+             /\ pc' = "emitted" /\ UNCHANGED <<prod, src, doc, doc2, back, fvars>>
+
+Next == StartStore \/ StoreStep \/ EmitStore \/ Pick \/ WriteDieA \/ WriteAllocA \/ Gen \/ ConvertFloorSet \/ EmitRectNetlist \/ EmitRectSolution \/ EmitLegalNetlist
         \/ ProduceAgain \/ Read \/ Emit
 Spec == Init /\ [][Next]_vars
 
 (***************************************************************************)
 (* INVARIANTS                                                              *)
 (***************************************************************************)
-TypeOK == pc \in {"pick", "picked", "written", "rewritten", "read", "emitted"} /\ prod \in Producers \cup {""}
+TypeOK == pc \in {"pick", "picked", "written", "rewritten", "read", "emitted", "store"} /\ prod \in Producers \cup {""}
+\* a read of a path is accepted and describes the object last written to that path
+InvReadLastWrite == (pc = "store" /\ seen # Nothing) => seen.got.ok /\ SameDesign(prod, seen.want, seen.got.obj)
 InQuantifier == prod # "netgen" \/ Defined(src[1], src[2])
 \* every document is accepted by its reader ...
 InvAccepted == (pc = "read" /\ InQuantifier) => back.ok
